@@ -20,6 +20,9 @@ free-list protocol theorems of C10.
 import Jamm.Proofs.FileCheckLemmas
 import Jamm.Proofs.CommitCompose
 import Jamm.Gen.Params
+import Jamm.Gen.Layout
+import Jamm.Proofs.EncodeLemmas
+import Jamm.Model.EncodeWrites
 set_option linter.unusedSectionVars false
 open Std
 
@@ -75,5 +78,44 @@ theorem commit_keeps_tree_wellformed (pagesize hdr leafHdr branchHdr bmSize : Na
 theorem invariant_checkers_sound (t : Tree K E) (h1 : wfsb none none t = true) (h2 : tightB none t = true)
     (d : Nat) (h3 : uniformB t = some d) : TreeInv t :=
   ⟨wfsb_sound none none t h1, tightB_sound none t h2, d, uniformB_sound t d h3⟩
+
+/-! ### the page writer.  `writeLeafPage` / `writeBranchPage` model `Page::write_node`; the run checks after
+every commit that every tree page of the real file holds exactly the bytes this writer produces for the node
+the page decodes to. -/
+
+/-- the regenerated layout table satisfies what the round trip needs (fields disjoint, tags distinct) -/
+theorem layout_fit_for_roundtrip : Layout.WFEnc Gen.layout = true := by decide
+
+/-- a leaf node that fits its page run, written with the current layout and decoded again, is the same node:
+every key, value, nested-bucket header, for every page size and page id -/
+theorem leaf_page_roundtrip (pagesize pid overflow : Nat) (es : List (Bytes × LeafVal)) (s : Src)
+    (hfile : pid * pagesize + (overflow + 1) * pagesize ≤ s.size)
+    (hfit : leafBytes Gen.layout es ≤ (overflow + 1) * pagesize)
+    (hhdr : Gen.layout.pageSize ≤ pagesize) (hid : pid < 2 ^ 64) (hrun : (overflow + 1) * pagesize < 2 ^ 64)
+    (hv : ∀ e ∈ es, e.2.fits = true) :
+    decodePage Gen.layout (writeLeafPage Gen.layout pagesize pid overflow es s) pagesize pid =
+      .ok { id := pid, overflow := overflow, count := es.length, body := .leaf es } :=
+  decode_writeLeafPage Gen.layout layout_fit_for_roundtrip pagesize pid overflow es s hfile hfit hhdr hid hrun hv
+
+theorem branch_page_roundtrip (pagesize pid overflow : Nat) (es : List (Bytes × Nat)) (s : Src)
+    (hfile : pid * pagesize + (overflow + 1) * pagesize ≤ s.size)
+    (hfit : branchBytes Gen.layout es ≤ (overflow + 1) * pagesize)
+    (hhdr : Gen.layout.pageSize ≤ pagesize) (hid : pid < 2 ^ 64) (hrun : (overflow + 1) * pagesize < 2 ^ 64)
+    (hv : ∀ e ∈ es, e.2 < 2 ^ 64) :
+    decodePage Gen.layout (writeBranchPage Gen.layout pagesize pid overflow es s) pagesize pid =
+      .ok { id := pid, overflow := overflow, count := es.length, body := .branch es } :=
+  decode_writeBranchPage Gen.layout layout_fit_for_roundtrip pagesize pid overflow es s hfile hfit hhdr hid hrun hv
+
+/-- writing a page changes no byte outside the bytes the node occupies: every other page decodes as before -/
+theorem page_write_is_local (pagesize pid overflow : Nat) (es : List (Bytes × LeafVal)) (s : Src) (i : Nat)
+    (h : i < pid * pagesize ∨ pid * pagesize + leafBytes Gen.layout es ≤ i) :
+    (writeLeafPage Gen.layout pagesize pid overflow es s).get i = s.get i :=
+  (writeLeafPage_frame Gen.layout layout_fit_for_roundtrip pagesize pid overflow es s i h).1
+
+/-- the form the run evaluates: the writer is its list of (offset, bytes) writes applied in order -/
+theorem writer_is_its_write_list (pagesize pid overflow : Nat) (es : List (Bytes × LeafVal)) (s : Src) :
+    writeLeafPage Gen.layout pagesize pid overflow es s =
+      applyWrites (leafPageWrites Gen.layout pagesize pid overflow es) s :=
+  writeLeafPage_eq Gen.layout pagesize pid overflow es s
 
 end Jamm.Props.C05
